@@ -135,3 +135,4 @@ package controllers
 //@   sink RemoveFinalizer:Client.Patch#1 requires [C04] objid(arg1) == objid(obj)
 //@   sink RemoveFinalizer:Client.Patch#1 requires [C18] freed(obj)
 //@   ensures tdPending() == old(tdPending())
+//@   ensures archivedNow() == old(archivedNow())
